@@ -7,26 +7,26 @@ an ordinary run-time error (never a pop of an empty stack, never a malformed-pro
 at the end of the fragment with `v :: st` and the scope stack it found.
 The general statement (all constructs, loops with their relational invariant) is the shape of C01's refinement.
 -/
-namespace ExprModel
+namespace ExprModel.Bc
 
 /-- the program the VM runs: the encoded bytes and the constant pool -/
-def Prog.ofCode (is : List Instr) (consts : Array Val) : Prog := { code := (encodeAll is).toArray, consts := consts }
+def progOfCode (is : List Instr) (consts : Array Val) : Prog := { code := (encodeAll is).toArray, consts := consts }
 
 theorem bc_fetch_byte (pre : List Instr) (i : Instr) (post : List Instr) (consts : Array Val) (k : Nat) :
-    (Prog.ofCode (pre ++ i :: post) consts).code[codeSize pre + k]? = (i.encode ++ encodeAll post)[k]? := by
-  simp only [Prog.ofCode, List.getElem?_toArray, encodeAll_append, encodeAll_cons]
+    (progOfCode (pre ++ i :: post) consts).code[codeSize pre + k]? = (i.encode ++ encodeAll post)[k]? := by
+  simp only [progOfCode, List.getElem?_toArray, encodeAll_append, encodeAll_cons]
   rw [List.getElem?_append_right (by rw [codeSize_eq_length]; omega), codeSize_eq_length]
   congr 1; omega
 
 theorem bc_fetch_op (pre : List Instr) (i : Instr) (post : List Instr) (consts : Array Val) :
-    (Prog.ofCode (pre ++ i :: post) consts).code[codeSize pre]? = some i.op.code := by
+    (progOfCode (pre ++ i :: post) consts).code[codeSize pre]? = some i.op.code := by
   have := bc_fetch_byte pre i post consts 0
   simp only [Nat.add_zero] at this
   rw [this]; unfold Instr.encode; split <;> rfl
 
 theorem bc_fetch_arg (pre : List Instr) (i : Instr) (post : List Instr) (consts : Array Val) (ha : i.op.hasArg = true) :
-    (Prog.ofCode (pre ++ i :: post) consts).code[codeSize pre + 1]? = some (i.arg % 256) ∧
-    (Prog.ofCode (pre ++ i :: post) consts).code[codeSize pre + 1 + 1]? = some (i.arg / 256 % 256) := by
+    (progOfCode (pre ++ i :: post) consts).code[codeSize pre + 1]? = some (i.arg % 256) ∧
+    (progOfCode (pre ++ i :: post) consts).code[codeSize pre + 1 + 1]? = some (i.arg / 256 % 256) := by
   have h1 := bc_fetch_byte pre i post consts 1
   have h2 := bc_fetch_byte pre i post consts 2
   simp only [Instr.encode, ha, if_true, List.cons_append, List.nil_append] at h1 h2
@@ -134,7 +134,7 @@ inductive StraightLine : Node → Prop
 def StackBalanced (code : List LInstr) (consts : Array Val) : Prop :=
   ∀ (pre post : List Instr) (vc : Cfg) (s : VM), s.ip = codeSize pre →
     StackBal s.stack s.scopes (codeSize pre + lsize code)
-      (stepN vc (Prog.ofCode (pre ++ instrs code ++ post) consts) (instrs code).length s)
+      (stepN vc (progOfCode (pre ++ instrs code ++ post) consts) (instrs code).length s)
 
 theorem balanced_push {consts : Array Val} {k : Nat} (l : Loc) (hk : AnyAt consts k) (h16 : k < 65536) :
     StackBalanced [li l .push k] consts := by
@@ -144,14 +144,14 @@ theorem balanced_push {consts : Array Val} {k : Nat} (l : Loc) (hk : AnyAt const
   have harg := bc_fetch_arg pre ⟨.push, k⟩ post consts rfl
   simp only [instrs_cons, instrs_nil, li_instr, List.length_singleton, stepN, List.append_assoc, List.cons_append,
     List.nil_append]
-  have hb := step_push_bal vc (Prog.ofCode (pre ++ ⟨.push, k⟩ :: post) consts) s (k % 256) (k / 256 % 256) v
+  have hb := step_push_bal vc (progOfCode (pre ++ ⟨.push, k⟩ :: post) consts) s (k % 256) (k / 256 % 256) v
     (by rw [hip]; exact hop) (by rw [hip]; exact harg.1) (by rw [hip]; exact harg.2)
     (by show consts[k % 256 + 256 * (k / 256 % 256)]? = some v
         have : k % 256 + 256 * (k / 256 % 256) = k := by omega
         rw [this]; exact hv)
   have hsz : codeSize pre + lsize [li l .push k] = s.ip + 3 := by rw [hip]; rfl
   rw [hsz]
-  cases hst : step vc (Prog.ofCode (pre ++ ⟨.push, k⟩ :: post) consts) s with
+  cases hst : step vc (progOfCode (pre ++ ⟨.push, k⟩ :: post) consts) s with
   | ok s' => rw [hst] at hb; exact hb
   | error e => rw [hst] at hb; exact hb
 
@@ -162,11 +162,11 @@ theorem balanced_lit {consts : Array Val} (l : Loc) (op : Op) (hop : op = .nil_ 
   have hfo := bc_fetch_op pre ⟨op, 0⟩ post consts
   simp only [instrs_cons, instrs_nil, li_instr, List.length_singleton, stepN, List.append_assoc, List.cons_append,
     List.nil_append]
-  have hb := step_lit_bal vc (Prog.ofCode (pre ++ ⟨op, 0⟩ :: post) consts) s op hop (by rw [hip]; exact hfo)
+  have hb := step_lit_bal vc (progOfCode (pre ++ ⟨op, 0⟩ :: post) consts) s op hop (by rw [hip]; exact hfo)
   have hsz : codeSize pre + lsize [li l op] = s.ip + 1 := by
     rw [hip]; simp [lsize_eq, Instr.size, hna]
   rw [hsz]
-  cases hst : step vc (Prog.ofCode (pre ++ ⟨op, 0⟩ :: post) consts) s with
+  cases hst : step vc (progOfCode (pre ++ ⟨op, 0⟩ :: post) consts) s with
   | ok s' => rw [hst] at hb; exact hb
   | error e => rw [hst] at hb; exact hb
 
@@ -179,7 +179,7 @@ theorem balanced_unop {consts : Array Val} {cx : List LInstr} (l : Loc) (op : Op
   have hlen : (instrs (cx ++ [li l op])).length = (instrs cx).length + 1 := by simp
   rw [hprog, hlen, stepN_add]
   have h1 := hx pre (⟨op, 0⟩ :: post) vc s hip
-  cases hr : stepN vc (Prog.ofCode (pre ++ instrs cx ++ (⟨op, 0⟩ :: post)) consts) (instrs cx).length s with
+  cases hr : stepN vc (progOfCode (pre ++ instrs cx ++ (⟨op, 0⟩ :: post)) consts) (instrs cx).length s with
   | error e => rw [hr] at h1; exact h1
   | ok s1 =>
     rw [hr] at h1
@@ -187,12 +187,12 @@ theorem balanced_unop {consts : Array Val} {cx : List LInstr} (l : Loc) (op : Op
     simp only [stepN]
     have hfo := bc_fetch_op (pre ++ instrs cx) ⟨op, 0⟩ post consts
     have hip1' : s1.ip = codeSize (pre ++ instrs cx) := by rw [hip1]; simp [lsize_eq]
-    have hb := step_unop_bal vc (Prog.ofCode (pre ++ instrs cx ++ (⟨op, 0⟩ :: post)) consts) s1 op hop
+    have hb := step_unop_bal vc (progOfCode (pre ++ instrs cx ++ (⟨op, 0⟩ :: post)) consts) s1 op hop
       (by rw [hip1']; exact hfo) v s.stack hst1
     have hsz : codeSize pre + lsize (cx ++ [li l op]) = s1.ip + 1 := by
       rw [hip1]; simp [lsize_eq, Instr.size, hna]; omega
     rw [hsz, ← hsc1]
-    cases hst : step vc (Prog.ofCode (pre ++ instrs cx ++ (⟨op, 0⟩ :: post)) consts) s1 with
+    cases hst : step vc (progOfCode (pre ++ instrs cx ++ (⟨op, 0⟩ :: post)) consts) s1 with
     | ok s' => rw [hst] at hb; exact hb
     | error e => rw [hst] at hb; exact hb
 
@@ -207,7 +207,7 @@ theorem balanced_binop {consts : Array Val} {cl cr : List LInstr} (l : Loc) (op 
     simp <;> omega
   rw [hprog, hlen, stepN_add]
   have h1 := hl pre (instrs cr ++ ⟨op, 0⟩ :: post) vc s hip
-  cases hr1 : stepN vc (Prog.ofCode (pre ++ instrs cl ++ (instrs cr ++ ⟨op, 0⟩ :: post)) consts) (instrs cl).length s with
+  cases hr1 : stepN vc (progOfCode (pre ++ instrs cl ++ (instrs cr ++ ⟨op, 0⟩ :: post)) consts) (instrs cl).length s with
   | error e => rw [hr1] at h1; exact h1
   | ok s1 =>
     rw [hr1] at h1
@@ -219,7 +219,7 @@ theorem balanced_binop {consts : Array Val} {cl cr : List LInstr} (l : Loc) (op 
     rw [hprog2]
     have hip1' : s1.ip = codeSize (pre ++ instrs cl) := by rw [hip1]; simp [lsize_eq]
     have h2 := hr (pre ++ instrs cl) (⟨op, 0⟩ :: post) vc s1 hip1'
-    cases hr2 : stepN vc (Prog.ofCode ((pre ++ instrs cl) ++ instrs cr ++ (⟨op, 0⟩ :: post)) consts) (instrs cr).length s1 with
+    cases hr2 : stepN vc (progOfCode ((pre ++ instrs cl) ++ instrs cr ++ (⟨op, 0⟩ :: post)) consts) (instrs cr).length s1 with
     | error e => rw [hr2] at h2; exact h2
     | ok s2 =>
       rw [hr2] at h2
@@ -227,12 +227,12 @@ theorem balanced_binop {consts : Array Val} {cl cr : List LInstr} (l : Loc) (op 
       simp only [stepN]
       have hfo := bc_fetch_op ((pre ++ instrs cl) ++ instrs cr) ⟨op, 0⟩ post consts
       have hip2' : s2.ip = codeSize ((pre ++ instrs cl) ++ instrs cr) := by rw [hip2]; simp [lsize_eq]; omega
-      have hb := step_binop_bal vc (Prog.ofCode ((pre ++ instrs cl) ++ instrs cr ++ (⟨op, 0⟩ :: post)) consts) s2 op h hop
+      have hb := step_binop_bal vc (progOfCode ((pre ++ instrs cl) ++ instrs cr ++ (⟨op, 0⟩ :: post)) consts) s2 op h hop
         (by rw [hip2']; exact hfo) a b s.stack (by rw [hst2, hst1])
       have hsz : codeSize pre + lsize (cl ++ cr ++ [li l op]) = s2.ip + 1 := by
         rw [hip2]; simp [lsize_eq, Instr.size, hna]; omega
       rw [hsz, ← hsc1, ← hsc2]
-      cases hst : step vc (Prog.ofCode ((pre ++ instrs cl) ++ instrs cr ++ (⟨op, 0⟩ :: post)) consts) s2 with
+      cases hst : step vc (progOfCode ((pre ++ instrs cl) ++ instrs cr ++ (⟨op, 0⟩ :: post)) consts) s2 with
       | ok s' => rw [hst] at hb; exact hb
       | error e => rw [hst] at hb; exact hb
 
@@ -382,24 +382,24 @@ theorem loop_of_stepN (c : Cfg) (p : Prog) : ∀ (n : Nat) (s : VM) (fuel : Nat)
     ordinary run-time errors -/
 theorem run_of_balanced {code : List LInstr} {consts : Array Val} (hb : StackBalanced code consts) (vc : Cfg)
     (fuel : Nat) (hf : (instrs code).length < fuel) :
-    match (run vc (Prog.ofCode (instrs code) consts) fuel).1 with
-    | .ok _ => (run vc (Prog.ofCode (instrs code) consts) fuel).2.stack = [] ∧
-               (run vc (Prog.ofCode (instrs code) consts) fuel).2.scopes = []
+    match (run vc (progOfCode (instrs code) consts) fuel).1 with
+    | .ok _ => (run vc (progOfCode (instrs code) consts) fuel).2.stack = [] ∧
+               (run vc (progOfCode (instrs code) consts) fuel).2.scopes = []
     | .error e => e ≠ .underflow ∧ e ≠ .badop ∧ e ≠ .fuel := by
   have h0 := hb [] [] vc (prologue vc {}) rfl
   simp only [List.nil_append, List.append_nil, codeSize_nil, Nat.zero_add] at h0
-  have hl := loop_of_stepN vc (Prog.ofCode (instrs code) consts) (instrs code).length (prologue vc {}) fuel (by omega)
+  have hl := loop_of_stepN vc (progOfCode (instrs code) consts) (instrs code).length (prologue vc {}) fuel (by omega)
   unfold run runOn
-  cases hr : stepN vc (Prog.ofCode (instrs code) consts) (instrs code).length (prologue vc {}) with
+  cases hr : stepN vc (progOfCode (instrs code) consts) (instrs code).length (prologue vc {}) with
   | ok s' =>
     rw [hr] at h0 hl
     obtain ⟨hip, ⟨v, hst⟩, hsc⟩ := h0
     simp only at hl
     rw [hl]
     obtain ⟨k, hk⟩ : ∃ k, fuel - (instrs code).length = k + 1 := ⟨fuel - (instrs code).length - 1, by omega⟩
-    have hsize : (Prog.ofCode (instrs code) consts).code.size = lsize code := by
-      simp [Prog.ofCode, codeSize_eq_length, lsize_eq]
-    have hnlt : ¬ s'.ip < (Prog.ofCode (instrs code) consts).code.size := by rw [hsize, hip]; omega
+    have hsize : (progOfCode (instrs code) consts).code.size = lsize code := by
+      simp [progOfCode, codeSize_eq_length, lsize_eq]
+    have hnlt : ¬ s'.ip < (progOfCode (instrs code) consts).code.size := by rw [hsize, hip]; omega
     rw [hk]
     simp only [loop, hnlt, if_false, hst]
     exact ⟨rfl, by simpa [prologue] using hsc⟩
@@ -410,4 +410,4 @@ theorem run_of_balanced {code : List LInstr} {consts : Array Val} (hb : StackBal
     rw [hl h0.2.1]
     exact h0
 
-end ExprModel
+end ExprModel.Bc
